@@ -280,7 +280,7 @@ namespace fastscapelib
             {
                 using neighbors_type = typename graph_impl_type::grid_type::neighbors_type;
 
-                double slope;
+                double slope, slope_max;
                 double weight, weights_sum;
                 neighbors_type neighbors;
                 size_type nrec;
@@ -307,7 +307,7 @@ namespace fastscapelib
                     }
 
                     nrec = 0;
-                    weights_sum = 0;
+                    slope_max = 0;
 
                     for (auto n : grid.neighbors(i, neighbors))
                     {
@@ -319,9 +319,12 @@ namespace fastscapelib
                             receivers(i, nrec) = n.idx;
                             dist2receivers(i, nrec) = n.distance;
 
-                            weight = std::pow(slope, this->m_op_ptr->m_slope_exp);
-                            weights_sum += weight;
-                            receivers_weight(i, nrec) = weight;
+                            // store the slope (converted into a weight below)
+                            receivers_weight(i, nrec) = slope;
+                            if (slope > slope_max)
+                            {
+                                slope_max = slope;
+                            }
 
                             // update donors (note: not thread safe if later parallelization)
                             donors(n.idx, donors_count(n.idx)++) = i;
@@ -340,6 +343,19 @@ namespace fastscapelib
                     }
 
                     receivers_count(i) = nrec;
+
+                    // flow partition weights: use the slopes relative to the steepest
+                    // one, so that neither the weights nor their sum can underflow to
+                    // zero or overflow (the steepest receiver always has weight 1)
+                    weights_sum = 0;
+                    for (size_type j = 0; j < nrec; j++)
+                    {
+                        weight = slope_max > 0 ? std::pow(receivers_weight(i, j) / slope_max,
+                                                          this->m_op_ptr->m_slope_exp)
+                                               : 1.;
+                        weights_sum += weight;
+                        receivers_weight(i, j) = weight;
+                    }
 
                     // normalize weights
                     for (size_type j = 0; j < nrec; j++)
